@@ -183,7 +183,7 @@ def replay(ctx, obj):
 
 
 def run(ctx):
-    explore(ctx, ctx.subrng("ia"), ctx.budget(700, 8000))
+    explore(ctx, ctx.subrng("ia"), ctx.budget(1200, 10000))
     if not ctx.violations:
         try:
             from .. import dense
